@@ -487,6 +487,13 @@ func (w *World) CheckWallet(inst *Instance, ws *WalletState, class string) *Ledg
 	chain := w.Node.BestChain()
 	got, err := inst.Observe(id)
 	if err != nil {
+		if errors.Is(err, ErrCrashed) || w.S.CrashRequested || inst.Dead {
+			// an injected crash (e.g. a torn storage write of a background
+			// flush) landed inside the observation itself: nothing was
+			// observed; the caller recovers the instance and checks again
+			w.Stat("probe.crash_during_observation")
+			return nil
+		}
 		w.Violate(class+".observe-error", "wallet %s: %v", id, err)
 		return nil
 	}
@@ -554,7 +561,9 @@ func (w *World) CheckLedger(inst *Instance, class string) {
 		if ws.Removing || ws.Uncertain {
 			continue
 		}
-		w.CheckWallet(inst, ws, class)
+		if w.CheckWallet(inst, ws, class) == nil && (w.S.CrashRequested || inst.Dead) {
+			return
+		}
 	}
 }
 
